@@ -44,7 +44,7 @@ def respell(e, rng):
 
 def _other_base(b):
     import random as _r
-    if _r.Random(int(abs(b) * 1000) % 9973).random() < 0.4:
+    if _r.Random(int(min(abs(b), 1e300) * 1000) % 9973).random() < 0.4:
         nb = math.nextafter(float(b), math.inf) if b != 1 else 1.0000000001
         if nb != b and nb != 1 and nb > 0:
             return nb
@@ -199,7 +199,85 @@ def check_cases(cases: list[dict], rep: Report, known: dict) -> None:
                 rep.violation(f"expression compares equal to foreign object {f!r}", dict(c))
         objects(c, a, r1, m, rep)
         rep.sample({"a": c["a"][:150], "respelled": c["b"][:150], "mutant": c["m"][:150], "mkind": c["mkind"]})
+    objects_model(work, rep)
     points(rep)
+
+
+def objects_model(work, rep: Report) -> None:
+    """the five public object classes and expressions against the model's `Obj.beq` / `Obj.hashKey`:
+    pairs of objects drawn from {a, respelled a, mutant} x {variable, other variable} x {point, the
+    same point permuted and re-spelled, one value changed, one coordinate more}, across classes too"""
+    import zlib
+    b = Batch()
+    asks = []
+    for c, a, r1, r2, m, *_ in work:
+        rng = random.Random(zlib.crc32((c["a"] + c["m"]).encode()))
+        vs = sorted(set(a._variable_names) | set(m._variable_names)) or ["x"]
+        if not all(n.isascii() and n.isidentifier() for n in vs):
+            continue
+        x = vs[0]
+        base = {n: rng.choice([1, 2, -0.5, 0, 3.0]) for n in vs}
+        items = list(base.items())
+        rng.shuffle(items)
+        pts = [base, {k: (float(v) if isinstance(v, int) else (int(v) if float(v).is_integer() else v)) for k, v in items},
+               {**base, x: base[x] + 1}, {**base, "extra_": 1}]
+        exprs = [(a, c["a"]), (r1, c["b"]), (m, c["m"])]
+
+        def draw():
+            kind = rng.choice(["OE", "OP", "OPA", "ODE", "ODI", "OL"])
+            e, we = rng.choice(exprs)
+            pt = rng.choice(pts)
+            v = rng.choice([x, x, x + "_", vs[-1]])
+            if kind == "OE":
+                return e, f"OE {we}"
+            if kind == "OP":
+                return Point(**pt), f"OP {wire.point(pt)}"
+            if kind == "OPA":
+                return sm.Partial(e, v), f"OPA {v} {we}"
+            if kind == "ODE":
+                if len(e._variable_names) > 1:
+                    return sm.Differential(e), f"ODI {we}"
+                return sm.Derivative(e), f"ODE {we}"
+            if kind == "ODI":
+                return sm.Differential(e), f"ODI {we}"
+            return sm.LocatedDifferential(e, Point(**pt), _private={"numeric_partials": {}}), f"OL {we} {wire.point(pt)}"
+        for _ in range(6):
+            o1, w1 = draw()
+            o2, w2 = draw() if rng.random() < 0.3 else (None, None)
+            if o2 is None:      # mostly the same class, so that equal pairs are frequent
+                for _ in range(20):
+                    o2, w2 = draw()
+                    if type(o2) is type(o1) or (wire.cls(o1) in wire.HEAD and wire.cls(o2) in wire.HEAD):
+                        break
+            asks.append((c, o1, o2, w1, w2, b.ask(f"F0 obeq {w1} {w2}")))
+    b.run()
+    for c, o1, o2, w1, w2, i in asks:
+        rep.evaluations += 1
+        got = call(lambda: (o1 == o2, o2 == o1, o1 != o2, hash(o1) == hash(o2)))
+        _, rest = parse_answer(b[i])
+        mod_eq, mod_hash = rest[0] == "1", rest[1] == "1"
+        info = dict(c, objects=[w1[:200], w2[:200]], impl=repr(got), model=b[i])
+        label = type(o1).__name__ if type(o1) is type(o2) else "cross-class"
+        if wire.cls(o1) in wire.HEAD and wire.cls(o2) in wire.HEAD:
+            label = "Expression"
+        rep.count("object-eq-vs-model", f"{label}:{'equal' if mod_eq else 'different'}")
+        if got[0] != "ok":
+            rep.violation(f"comparison of {label} objects raised {got[1]}", info)
+            continue
+        e1, e2, ne, hs = got[1]
+        rep.corr_checked += 1
+        if not (same_bool(e1) and same_bool(e2) and same_bool(ne)):
+            rep.violation(f"== / != on {label} objects did not return a bool: {got[1]!r}", info)
+        elif e1 != e2 or ne == e1:
+            rep.violation(f"{label} objects: == is not symmetric or != is not its negation: {got[1]!r}", info)
+        elif e1 != mod_eq:
+            rep.violation(f"{label} objects: == is {e1} but equality of their parts (model Obj.beq) is {mod_eq}", info)
+        elif e1 and not hs:
+            rep.violation(f"equal {label} objects have different hashes", info)
+        elif mod_hash and not hs:
+            rep.violation(f"{label} objects with the same hash key hash differently", info)
+        if mod_eq and not mod_hash:
+            rep.corr_break("model: equal objects with different hash keys", info)
 
 
 def objects(c, a, r1, m, rep: Report) -> None:
@@ -238,6 +316,38 @@ def objects(c, a, r1, m, rep: Report) -> None:
                         hash(sm.LocatedDifferential(a, p, _private={"numeric_partials": {}})) == hash(sm.LocatedDifferential(a, p2, _private={"numeric_partials": {}}))))
     if got[0] != "ok" or got[1] != (False, True, True, False, True):
         rep.violation(f"Partial / LocatedDifferential equality does not follow variable / point equality: {got!r}", dict(c))
+    # the same object reached by different routes (its derived data - numeric partials, symbolic
+    # partials - may then differ in the last bit or in shape): still equal, still one hash
+    def variants():
+        out = {"Partial": [sm.Partial(a, x), sm.Partial(a, x, compute_early=True), sm.Differential(a).component(x),
+                           sm.Differential(a, compute_early=True).component(x)]}
+        pa = sm.Partial(a, x)
+        pa.as_expression()
+        out["Partial"].append(pa)
+        out["Differential"] = [sm.Differential(a), sm.Differential(a, compute_early=True)]
+        if len(a._variable_names) == 1:
+            out["Derivative"] = [sm.Derivative(a), sm.Derivative(a, compute_early=True)]
+        for pt in (p, Point(**{n: 2.5 for n in vs}), Point(**{n: 0.75 + 0.5 * i for i, n in enumerate(vs)})):
+            lds = []
+            for mkld in (lambda: sm.LocatedDifferential(a, pt), lambda: sm.Differential(a).at(pt),
+                         lambda: sm.Differential(a, compute_early=True).at(pt)):
+                try:
+                    lds.append(mkld())
+                except (sm.DomainError, ZeroDivisionError, OverflowError, ValueError):
+                    pass
+            out[f"LocatedDifferential@{pt}"] = lds
+        return out
+    got = call(variants, timeout=60)
+    if got[0] == "ok":
+        for name, objs in got[1].items():
+            for o in objs[1:]:
+                rep.evaluations += 1
+                r = call(lambda: (objs[0] == o, o == objs[0], hash(objs[0]) == hash(o), len({objs[0], o})))
+                rep.count("same-object-by-routes", name.split("@")[0])
+                if r[0] != "ok" or r[1] != (True, True, True, 1):
+                    rep.violation(f"{name.split('@')[0]} objects for the same expression (and point) obtained by different routes "
+                                  f"are not equal / hash differently: (==, reversed ==, same hash, set size) = {r!r}",
+                                  dict(c, object=name, first=repr(objs[0])[:200]))
 
 
 def points(rep: Report) -> None:
